@@ -166,6 +166,15 @@ def out_string(d, maxlen):
     return s
 
 
+def default_value(p):
+    """Python value of a parameter's C++ default argument."""
+    d = p["default"]
+    if p["kind"] in STR_KINDS:
+        return d.strip('"')
+    k = TYPES[p["T"]]["k"]
+    return (d == "true") if k == "b" else (float(d) if k == "r" else int(d))
+
+
 def fin(z):
     z = ((z ^ (z >> 30)) * 0xBF58476D1CE4E5B9) & M64
     z = ((z ^ (z >> 27)) * 0x94D049BB133111EB) & M64
@@ -252,7 +261,8 @@ def ret_decl(r):
     if k == "str_cref_len":
         return "const std::string &", " +len(%d)" % r["N"]
     if k == "ptr_scalar":
-        return "%s *" % r["T"], " +deref(scalar)"
+        # without an attribute the documented default applies: a Fortran POINTER to the scalar; the C API keeps the pointer
+        return "%s *" % r["T"], (" +deref(scalar)" if r.get("deref", "scalar") == "scalar" else "")
     if k == "arr_ptr":
         return "%s *" % r["T"], " +dimension(%s)+deref(%s)%s%s" % (",".join(r["dims"]) if r.get("dims") else r["len"], r["deref"], "+owner(caller)" if r.get("owner") == "caller" else "",
                                                                   "+free_pattern(%s)" % r["free_pattern"] if r.get("free_pattern") else "")
@@ -551,18 +561,33 @@ def impl_function(f, lang, qual=""):
     return lines
 
 
+def tsub(T, f, t):
+    """Concrete type of T in the instantiation t of function template f (t: a type, or a list of types matching
+    f['tparams'] in declaration order)."""
+    if not t or T is None:
+        return T
+    names = f.get("tparams") or ["ArgType"]
+    vals = list(t) if isinstance(t, (list, tuple)) else [t]
+    return dict(zip(names, vals)).get(T, T)
+
+
+def tlabel(t):
+    return ",".join(t) if isinstance(t, (list, tuple)) else t
+
+
 def instantiate(f, t):
-    """Concrete entry point of a function template for template argument t (or f itself)."""
+    """Concrete entry point of a function template for template argument(s) t (or f itself)."""
     if not t:
         return f
     import copy
     g = copy.deepcopy(f)
     for p in g["params"]:
-        if p.get("T") == "ArgType":
-            p["T"] = t
-    if g["ret"].get("T") == "ArgType":
-        g["ret"]["T"] = t
-    g["fid"] = "%s<%s>" % (f.get("fid") or f["name"], t)
+        p["T"] = tsub(p.get("T"), f, t) if "T" in p else p.get("T")
+        if p["T"] is None:
+            p.pop("T")
+    if "T" in g["ret"]:
+        g["ret"]["T"] = tsub(g["ret"]["T"], f, t)
+    g["fid"] = "%s<%s>" % (f.get("fid") or f["name"], tlabel(t))
     g.pop("template", None)
     return g
 
@@ -606,7 +631,7 @@ def library_sources(lib):
     for f in lib["functions"]:
         if not f.get("cls"):
             if f.get("template"):
-                h.append("template<typename ArgType> " + func_decl(f, cxx_only=True) + ";")
+                h.append("template<%s> " % ", ".join("typename " + x for x in (f.get("tparams") or ["ArgType"])) + func_decl(f, cxx_only=True) + ";")
             else:
                 d_ = ('extern "C" ' if f.get("extern_c") and lang == "c++" else "") + func_decl(f, cxx_only=True) + ";"
                 h.append("namespace %s { %s }" % (f["ns"], d_) if f.get("ns") else d_)
@@ -634,7 +659,7 @@ def library_sources(lib):
             for t in f["template"]:
                 body = impl_function(instantiate(f, t), lang)
                 # explicit specialisation: 'R name(params)' -> 'template<> R name<t>(params)'
-                body[0] = "template<> " + body[0].replace(" %s(" % f["name"], " %s<%s>(" % (f["name"], t), 1)
+                body[0] = "template<> " + body[0].replace(" %s(" % f["name"], " %s<%s>(" % (f["name"], tlabel(t).replace(",", ", ")), 1)
                 c.extend(body)
                 c.append("")
             continue
